@@ -30,7 +30,7 @@
    one (hypothesis [no_suppressed_better] = exactly the negation of that input class, on the calls
    answered before the deadline), C09_deadline_refuted* exhibit the witness, and
    C09_deadline_winner_is_max_value_record says what the code computes for all inputs. *)
-From Verif Require Import Lib.Base Model.C09_Auction Model.C09_Spec Proofs.C09 Proofs.C09_Spec.
+From Verif Require Import Lib.Base Model.C09_Auction Model.C09_Spec Proofs.C09 Proofs.C09_Spec Check.C09 Proofs.C09_Check.
 
 (* ------------------------------------------------------------------------------------------- *)
 (* Score and eligibility. *)
@@ -283,6 +283,35 @@ Theorem C09_linearizations_are_arrival_orders :
   forall s rs ord, In ord (linearizations (all_events s rs)) -> arrival_order s rs ord.
 Proof. exact linearization_arrival_order. Qed.
 Print Assumptions C09_linearizations_are_arrival_orders.
+
+(* ------------------------------------------------------------------------------------------- *)
+(* The check's predicate.  [Check.C09.P_b] is evaluated on the OBSERVED result of every case; its
+   candidates are computed from the mock's call log and the relay scripts, not by the model.  When
+   that log is the scripted one ([log_agrees], which [agree] checks) and relay names are distinct,
+   the candidates are exactly the acceptable offers, and P_b = true means that the observed winner,
+   provider list and served bids satisfy the declarative statement. *)
+
+Theorem C09_check_candidates_are_acceptable :
+  forall c, NoDup (map r_idx (c_relays c)) -> log_agrees c ->
+            forall i b, In (i, b) (cands c) <-> acceptable (c_strat c) (c_relays c) i b.
+Proof. exact cands_iff_acceptable. Qed.
+Print Assumptions C09_check_candidates_are_acceptable.
+
+Theorem C09_agree_gives_log : forall c, agree c = true -> strategy_runs c = true -> log_agrees c.
+Proof. exact agree_log. Qed.
+Print Assumptions C09_agree_gives_log.
+
+Theorem C09_P_b_sound :
+  forall c,
+    NoDup (map r_idx (c_relays c)) -> log_agrees c -> P_b c = true ->
+    let P := acceptable (c_strat c) (c_relays c) in
+    c_panic c = false
+    /\ (c_has_results c = true ->
+        obs_winner_is_max (c_cfgs c) P (c_win c) /\ obs_providers_ok P (c_win c) (c_providers c)
+        /\ (forall j, In j (c_providers c) -> In j (c_allp c)))
+    /\ (c_mode c <> MStrategy -> Forall (obs_served_ok (c_cfgs c) P) (c_served c)).
+Proof. exact P_b_sound. Qed.
+Print Assumptions C09_P_b_sound.
 
 (* ------------------------------------------------------------------------------------------- *)
 (* Non-vacuity. *)
